@@ -49,7 +49,7 @@ def run(chk):
         for k in range(n):
             items = printer.gen_items(chk.rng, allow_services=False)
             files = {}
-            mode = chk.rng.choice(["valid", "undeclared", "forward", "self", "via-module", "valid", "via-nested-modules"])
+            mode = chk.rng.choice(["valid", "undeclared", "forward", "self", "via-module", "valid", "via-nested-modules", "module-uses-outside-type"])
             structs = [i for i, it in enumerate(items) if it[0] == "struct"]
             expect_err = None
             if mode == "via-module":
@@ -67,6 +67,20 @@ def run(chk):
                     expect_err = (name, items[si][1])
                 else:
                     si, name = None, None
+            elif mode == "module-uses-outside-type":
+                # a module refers to a type it neither declares nor imports, but which the importer declared before the mod line or a
+                # sibling module imported earlier declares: a module has its own scope, so this is an error naming that type
+                sib_items = printer.gen_items(chk.rng, prefix="SB_", allow_services=False)
+                files["lib/sib.fcp"] = printer.render(printer.tokens(sib_items))
+                outside = [it[1] for it in sib_items if it[0] in ("struct", "enum")]
+                pos = chk.rng.randrange(len(items) + 1)
+                outside += [it[1] for it in items[:pos] if it[0] in ("struct", "enum")]
+                target = chk.rng.choice(outside)
+                t = chk.rng.choice([("ref", target), ("arr", ("ref", target), 2), ("opt", ("ref", target)), ("dyn", ("opt", ("ref", target)))])
+                files["lib/user.fcp"] = printer.render(printer.tokens([("struct", "USER_S", [{"name": "r", "id": 0, "type": t, "params": []}])]))
+                items[pos:pos] = [("mod", ["lib", "sib"]), ("mod", ["lib", "user"])]
+                expect_err = (target, "USER_S")
+                si, name = None, None
             elif mode == "via-nested-modules":
                 # main imports a/<base>.fcp and b/api.fcp; b/api.fcp imports b/<base>.fcp (same file name, other directory, other
                 # declarations) and refers to its types; main refers to types of all three
